@@ -1,7 +1,7 @@
 (* C11 -- file contents written through a Path are read back identically.
    Property theorems only; proofs are in ProofC11.v.  The transfer protocol (run() proxy, tee, ^D, terminate0) is
    decided end-to-end; these theorems are the codec and payload facts it relies on. *)
-From TV Require Import Base Base64 ProofC11.
+From TV Require Import Base Utf8 Regex Channel ChannelLemmas Hush Session ProofSession ProofC19 Sh Base64 ProofC11 Proxy PathIO ProofC11b.
 
 (* (1) decoding the encoding gives back the data: every byte string, all 256 values, every length *)
 Theorem C11_base64_roundtrip :
@@ -35,3 +35,18 @@ Theorem C11_line_characters_harmless :
   forall p c, Forall b64_char p -> In c p -> (43 <= c /\ c <= 122 /\ c <> 58 /\ c <> 32)%N.
 Proof. exact b64_line_harmless. Qed.
 Print Assumptions C11_line_characters_harmless.
+
+(* (5) read_bytes as a session: the remote prints the 76-column base64 text of the file; for EVERY fragmentation of the
+       console's reaction read_bytes returns exactly the file's bytes and leaves the channel in sync *)
+Theorem C11_read_bytes_exact :
+  forall cmd d P c st1 st2 sts,
+  insync c -> prompt c = Some (SLit P) -> P <> [] -> Forall is_byte d ->
+  any_in (blacklist c) (utf8_enc cmd ++ [CR]) = false ->
+  any_in (blacklist c) (ECHO_Q ++ [CR]) = false ->
+  wf_pend st1 -> cat st1 = tty_echo false (utf8_enc cmd ++ [CR]) ++ onlcr (b64_wrapped d) ++ P ->
+  prompt_only_at_end P (onlcr (b64_wrapped d)) ->
+  wf_pend st2 -> cat st2 = tty_echo false (ECHO_Q ++ [CR]) ++ (ZERO ++ [CR; LF]) ++ P ->
+  prompt_only_at_end P (ZERO ++ [CR; LF]) ->
+  exists c', read_bytes_model cmd (st1 :: st2 :: sts) c = (X0Ok d, c') /\ insync c'.
+Proof. exact read_bytes_exact. Qed.
+Print Assumptions C11_read_bytes_exact.
